@@ -112,6 +112,8 @@ type Interp struct {
 	locked       int
 	pathNotes    []string
 	lastPanic    string
+	recordExtern bool
+	externCalls  []string
 	obs          []Obs
 	onceDone     map[*Cell]bool
 	lowerUsed    bool
@@ -137,6 +139,7 @@ type Interp struct {
 	FuncSym      map[string]bool
 	Stubs        map[string]int
 	Notes        []string
+	PathObs      []map[string]string
 	WantCoverModels bool
 }
 
@@ -193,6 +196,7 @@ func (in *Interp) resetInstance() {
 	in.FuncSym = map[string]bool{}
 	in.Stubs = map[string]int{}
 	in.Notes = nil
+	in.PathObs = nil
 }
 
 // SetBank rebinds the interpreter to a fresh term bank (new instance).
@@ -421,6 +425,8 @@ func (in *Interp) runPath(fn *ssa.Function, prefix []int) {
 	in.obs = nil
 	in.onceDone = nil
 	in.lastPanic = ""
+	in.recordExtern = false
+	in.externCalls = nil
 	kind := "done"
 	func() {
 		defer func() {
@@ -443,6 +449,9 @@ func (in *Interp) runPath(fn *ssa.Function, prefix []int) {
 	}()
 	in.Paths++
 	in.PathKinds[kind]++
+	if kind == "done" && len(in.obs) > 0 && len(in.PathObs) < 64 {
+		in.PathObs = append(in.PathObs, in.evalObs(&sym.Model{Vals: map[string]uint64{}}))
+	}
 	// undo writes to package state
 	for i := len(in.journal) - 1; i >= 0; i-- {
 		in.journal[i].c.V = in.journal[i].v
@@ -648,6 +657,20 @@ func (in *Interp) callFunction(fn *ssa.Function, args []Value, env []Value, site
 	if fn.Synthetic != "" && strings.HasPrefix(fn.Synthetic, "package initializer") {
 		if fn.Pkg != nil && !in.InterpPkgs[fn.Pkg.Pkg.Path()] {
 			return nil
+		}
+	}
+	if fn.Blocks == nil || (fn.Pkg != nil && !in.InterpPkgs[fn.Pkg.Pkg.Path()]) {
+		if in.recordExtern {
+			// harness asked for calls that leave the interpreted packages to be recorded, not refused
+			in.externCalls = append(in.externCalls, name)
+			res := fn.Signature.Results()
+			switch res.Len() {
+			case 0:
+				return nil
+			case 1:
+				return in.zero(res.At(0).Type())
+			}
+			return in.zero(res)
 		}
 	}
 	if fn.Blocks == nil {
